@@ -8,6 +8,7 @@ import (
 	"path/filepath"
 	"regexp"
 	"sort"
+	"strconv"
 	"strings"
 	"sync"
 	"time"
@@ -31,12 +32,16 @@ type Spec struct {
 	Witnesses   map[string]run.Instance // known-finding id -> instance whose assertion reproduces it
 	Extra       func(w *run.World, ev *Evidence) error // non-solver side facts (SSA scans), recorded in evidence
 	Workers     int
+	Confirm     *ConfirmRun // native search for a concrete failing case, run only when an abstract harness has a counterexample
 	Native      []NativeRun // native-only validations of the specification layer on the repo's own test positions
 	Virtual     map[string][]string // overlay-only package dir -> repo-relative source files presented there
 	SliderSummary bool // replace slider lookups by the ray-walk spec, licensed per square by re-proving the C12 lemma first
 }
 
 type NativeRun struct{ Pkg, Func string }
+
+// ConfirmRun names the native sweep that looks for a concrete failing case and the native function that replays one.
+type ConfirmRun struct{ Pkg, Sweep, Case string }
 
 type KnownFinding struct {
 	Property    string `json:"property"`
@@ -275,7 +280,11 @@ func Run(prop, tier string, seed int64, repoDir, verifDir string, verbose bool) 
 				for j := range r.Obs {
 					o := &r.Obs[j]
 					if o.Verdict == "sat" && o.Kind != "cover" && o.Kind != "unwind" && o.Model != nil {
-						o.Replayed, o.ReplayPath = w.Replay(inst, o, filepath.Join(verifDir, "replays", prop))
+						if inst.Opt.Abstract {
+							o.Replayed = "abstract"
+						} else {
+							o.Replayed, o.ReplayPath = w.Replay(inst, o, filepath.Join(verifDir, "replays", prop))
+						}
 					}
 				}
 				// a counterexample under an abstraction that does not reproduce is re-decided with the exact encoding
@@ -316,7 +325,43 @@ func Run(prop, tier string, seed int64, repoDir, verifDir string, verbose bool) 
 	close(jobs)
 	wg.Wait()
 
-	// ------------------------------------------------------------ verdict
+	// ------------------------------------------------------------ abstract counterexamples need a concrete witness
+	abstractSat := false
+	for i, r := range results {
+		if i >= len(insts) || r.Err != nil {
+			continue
+		}
+		for _, o := range r.Obs {
+			if o.Replayed == "abstract" {
+				abstractSat = true
+			}
+		}
+	}
+	confirmedPath, confirmedWhat := "", ""
+	if abstractSat && spec.Confirm != nil {
+		out, _ := w.ReplayTapeTimeout(spec.Confirm.Pkg, spec.Confirm.Sweep, filepath.Join(w.TmpDir, "none.json"), "1200s")
+		for _, l := range strings.Split(out, "\n") {
+			if strings.HasPrefix(l, "VP-CONFIRMED ") {
+				parts := strings.SplitN(strings.TrimPrefix(l, "VP-CONFIRMED "), "|", 3)
+				if len(parts) == 3 {
+					k, _ := strconv.ParseInt(parts[2], 10, 64)
+					tape := map[string]any{"harness": spec.Confirm.Pkg + "." + spec.Confirm.Case, "property": prop, "label": parts[0],
+						"params": map[string]int64{"k": k}, "strs": map[string]string{"fen": parts[1]}, "vars": map[string]uint64{}}
+					data, _ := json.MarshalIndent(tape, "", " ")
+					dir := filepath.Join(verifDir, "replays", prop)
+					os.MkdirAll(dir, 0o755)
+					confirmedPath = filepath.Join(dir, fmt.Sprintf("%s_confirmed_%s.json", prop, strings.Map(func(r rune) rune {
+						if r == ' ' || r == '/' {
+							return '_'
+						}
+						return r
+					}, parts[0])))
+					os.WriteFile(confirmedPath, data, 0o644)
+					confirmedWhat = fmt.Sprintf("%s on %q with k=%d", parts[0], parts[1], k)
+				}
+			}
+		}
+	}
 	exit := 0
 	nViol := 0
 	var lines []string
@@ -391,6 +436,18 @@ func Run(prop, tier string, seed int64, repoDir, verifDir string, verbose bool) 
 				if o.Kind == "unwind" {
 					lines = append(lines, fmt.Sprintf("UNWINDING-ASSERTION-FAILED %s %s", r.Inst.Name(), o.Label))
 					exit = max(exit, 2)
+					break
+				}
+				if o.Replayed == "abstract" {
+					if confirmedPath != "" {
+						nViol++
+						lines = append(lines, fmt.Sprintf("VIOLATION property=%s replay=%s", prop, confirmedPath))
+						lines = append(lines, fmt.Sprintf("  abstract counterexample of %s obligation=%q confirmed on the real search: %s", r.Inst.Name(), o.Label, confirmedWhat))
+						exit = max(exit, 1)
+					} else {
+						lines = append(lines, fmt.Sprintf("INCONCLUSIVE %s %q: counterexample against the activation contracts; no concrete failing search found by the native confirmation run", r.Inst.Name(), o.Label))
+						exit = max(exit, 2)
+					}
 					break
 				}
 				if o.Replayed == "confirmed" {
